@@ -28,6 +28,7 @@ type Obligation struct {
 	Info    string // human-readable description (source expr)
 	Excuse  Term   // optional: known-finding excuse (set by matcher)
 	vc        *VC  // the verification context that generated it (replay)
+	CrossCheck []string // thorough tier: answers of the other solvers on this obligation
 	OnlyProps bool // Props come from the clause label: the obligation belongs to exactly these properties
 	// results
 	Status  string // proved, failed, unknown, error
